@@ -146,8 +146,9 @@ def run(tier, seed):
             chk.nontrivial.add(j[:7])
             continue
         chk.fail(None, {'clause': 'datatype-position', 'version': j[0], 'holder': j[2], 'datatype': j[3], 'component': j[4], 'sub_datatype': j[5], 'subcomponent': j[6],
-                        'expected': want, 'got': vlib.unhexs(o[3:]) if o.startswith('ok ') else o},
-                 {'api': "f = Field(holder, version) (or Component(holder)); f.<d_j>[.<d2_k>] = value; f.to_er7()", 'version': j[0], 'holder_kind': j[1], 'holder': j[2],
+                        'expected': want, 'got': vlib.unhexs(o[3:]) if o.startswith('ok ') else (o.split()[0] + ' ' + ' / '.join(vlib.unhexs(x) for x in o.split()[1:])) if o.startswith('pathdiff') else o,
+                        'traversal_path': ('%s_%d' % (j[2].lower(), j[4]) + ('' if j[6] is None else '_%d' % j[6])) if o.startswith('path') else None},
+                 {'api': "f = Field(holder, version) (or Component(holder)); f.<d_j>[.<d2_k>] = value; f.to_er7(); and g = Field(holder, version); g.<holder>_<j>[_<k>] = value; g.to_er7()", 'version': j[0], 'holder_kind': j[1], 'holder': j[2],
                   'datatype': j[3], 'component': j[4], 'sub_datatype': j[5], 'subcomponent': j[6], 'value': j[7]})
     chk.exhaustive = (tier != 'quick')
     chk.dist.update({'segment_positions': len(jobs), 'datatype_positions': len(djobs)})
